@@ -166,7 +166,9 @@ func (a *Aggregator[VR, GE, S, M]) Aggregate(
 
 	var bigR GE
 	if a.IsCosigning() {
-		bigR = a.bigR
+		// the signature's nonce commitment is the parity-corrected aggregate: the sum of the corrected partial commitments,
+		// which is what the non-cosigning path sums (a.bigR is the uncorrected sum)
+		bigR = iterutils.Reduce(maps.Values(a.correctedBigRs), a.group.OpIdentity(), func(acc, x GE) GE { return acc.Op(x) })
 	} else {
 		bigR = iterutils.Reduce(slices.Values(partialSignatures.Values()),
 			a.group.OpIdentity(), func(acc GE, x *lindell22.PartialSignature[GE, S]) GE { return acc.Op(x.Sig.R) },
